@@ -302,11 +302,9 @@ def fpToUBV(rm, fp, size):
     try:
         rounding_mode = rm.pydecimal_equivalent_rounding_mode()
         val = int(Decimal(fp.value).to_integral_value(rounding_mode))
-        assert val & ((1 << size) - 1) == val, (
-            f"Rounding produced values outside the BV range! rounding {fp.value} with rounding mode {rm} produced {val}"
-        )
-        if val < 0:
-            val = (1 << size) + val
+        if val & ((1 << size) - 1) != val:
+            # negative or too large: the result is unspecified (like NaN and the infinities below)
+            return BVV(0, size)
         return BVV(val, size)
 
     except (ValueError, OverflowError):
